@@ -23,7 +23,7 @@ inductive Out (β : Type) where
   | ok (v : β)
   | err
   | panic
-deriving Repr
+deriving Repr, DecidableEq
 
 namespace Out
 def bind {β γ : Type} (x : Out β) (f : β → Out γ) : Out γ :=
